@@ -1,7 +1,338 @@
-//! C39 — not implemented yet (see DESIGN.md section 4).
-use kit::Run;
-use serde_json::Value;
+//! C39 — ingredients carry their source manifests and validation faithfully.
+//! S-inp: {signed, tampered (one media byte flipped), unsigned} tiny asset of every kit format x relationship
+//! {parentOf, componentOf, inputTo} x {direct, via ingredient archive, chain of 2}.
+//! Oracle (DESIGN.md C39): every manifest superbox of the ingredient's store appears byte-identical in the new store
+//! (independent JUMBF walker, kit::defs::manifest_boxes); the validation state and failure codes recorded with the
+//! ingredient equal those obtained by reading the ingredient on its own; unsigned => no manifest, no failure.
+//!
+//! Mutants caught (tools/mutant_run.sh H <diff> C39 quick):
+//!   /verif/mutants/C39-ingredient-drops-failure-codes.diff
 
-pub fn run(_run: &Run, _replay: Option<&Value>) {
-    kit::ev::machinery("C39: check not implemented");
+use c2pa::{Builder, BuilderIntent, DigitalSourceType};
+use kit::{assets, defs::manifest_boxes, par, sdk, Run};
+use serde_json::{json, Value};
+use std::io::Cursor;
+
+pub const RELS: [&str; 3] = ["parentOf", "componentOf", "inputTo"];
+pub const STATES: [&str; 3] = ["signed", "tampered", "unsigned"];
+pub const MODES: [&str; 3] = ["direct", "archive", "chain2"];
+
+#[derive(Clone, Debug)]
+pub struct Seed {
+    pub name: String,
+    pub mime: &'static str,
+    pub unsigned: Vec<u8>,
+    pub signed: Vec<u8>,
+    pub store: Vec<u8>,
+    pub tampered: Vec<u8>,
+    pub tamper_pos: usize,
+}
+
+/// (state, failure (code,url) list sorted) of reading an asset on its own; None when it carries no manifest.
+pub fn read_alone(mime: &str, data: &[u8]) -> Result<Option<(String, Vec<(String, String, String)>)>, String> {
+    match par::guard(|| sdk::read(sdk::ctx(), mime, data)) {
+        Err(p) => Err(format!("panic {p}")),
+        Ok(Err(c2pa::Error::JumbfNotFound)) => Ok(None),
+        Ok(Err(e)) => Err(format!("{e:?}")),
+        Ok(Ok(rd)) => {
+            let vr = rd.validation_results().map(|v| serde_json::to_value(v).unwrap_or(Value::Null)).unwrap_or(Value::Null);
+            Ok(Some((sdk::state_name(rd.validation_state()).to_string(), failures_of(&vr))))
+        }
+    }
+}
+
+/// (where, code, url) of every failure in a serialised ValidationResults.
+pub fn failures_of(vr: &Value) -> Vec<(String, String, String)> {
+    let mut out = vec![];
+    if let Some(f) = vr["activeManifest"]["failure"].as_array() {
+        for s in f {
+            out.push(("activeManifest".to_string(), s["code"].as_str().unwrap_or("").to_string(), s["url"].as_str().unwrap_or("").to_string()));
+        }
+    }
+    if let Some(ds) = vr["ingredientDeltas"].as_array() {
+        for d in ds {
+            if let Some(f) = d["validationDeltas"]["failure"].as_array() {
+                for s in f {
+                    out.push(("ingredientDeltas".to_string(), s["code"].as_str().unwrap_or("").to_string(), s["url"].as_str().unwrap_or("").to_string()));
+                }
+            }
+        }
+    }
+    out.sort();
+    out
+}
+
+pub fn seeds(thorough: bool) -> Vec<Seed> {
+    let list = if thorough { assets::all() } else { assets::base() };
+    let signer = sdk::fixture_signer("ed25519");
+    let mut out = vec![];
+    for a in list {
+        let mut b = sdk::builder(sdk::ctx(), r#"{"title":"seed","claim_generator_info":[{"name":"kit","version":"1"}]}"#);
+        let (signed, store) = sdk::sign(&mut b, signer.as_ref(), a.mime, &a.data).unwrap_or_else(|e| kit::ev::machinery(format!("C39 seed {}: {e:?}", a.name)));
+        match read_alone(a.mime, &signed) {
+            Ok(Some((s, _))) if s == "Valid" => {}
+            x => kit::ev::machinery(format!("C39 seed {} does not read back Valid: {x:?}", a.name)),
+        }
+        if manifest_boxes(&store).map(|v| v.len()).unwrap_or(0) == 0 {
+            kit::ev::machinery(format!("C39 seed {}: independent JUMBF walker cannot interpret the store", a.name));
+        }
+        // tamper: the last position (searching backwards) whose flip leaves a readable asset that reports a hard-binding mismatch
+        let mut found = None;
+        let n = signed.len();
+        // candidates: the last 64 bytes backwards, then bytes 8..400 forwards (formats that append the manifest), then the rest backwards
+        let mut cand: Vec<usize> = (n.saturating_sub(64)..n).rev().collect();
+        cand.extend(8..n.min(400));
+        cand.extend((0..n.saturating_sub(64)).rev());
+        for pos in cand {
+            let mut t = signed.clone();
+            t[pos] ^= 0x01;
+            if let Ok(Some((s, f))) = read_alone(a.mime, &t) {
+                if s == "Invalid" && f.iter().any(|x| x.1.contains("ash.mismatch") || x.1.contains("Hash.mismatch")) {
+                    found = Some((pos, t));
+                    break;
+                }
+            }
+        }
+        let Some((tamper_pos, tampered)) = found else {
+            kit::ev::machinery(format!("C39 seed {}: no single byte flip gives a readable asset with a hash mismatch", a.name));
+        };
+        out.push(Seed { name: a.name.to_string(), mime: a.mime, unsigned: a.data.clone(), signed, store, tampered, tamper_pos });
+    }
+    out
+}
+
+#[derive(Clone, Debug)]
+pub struct Case {
+    pub seed: String,
+    pub state: String,
+    pub rel: String,
+    pub mode: String,
+    pub parent: String,
+}
+impl Case {
+    pub fn to_json(&self) -> Value {
+        json!({"seed": self.seed, "state": self.state, "rel": self.rel, "mode": self.mode, "parent": self.parent})
+    }
+    pub fn from_json(v: &Value) -> Case {
+        Case {
+            seed: v["seed"].as_str().unwrap_or("jpeg").into(),
+            state: v["state"].as_str().unwrap_or("signed").into(),
+            rel: v["rel"].as_str().unwrap_or("componentOf").into(),
+            mode: v["mode"].as_str().unwrap_or("direct").into(),
+            parent: v["parent"].as_str().unwrap_or("jpeg").into(),
+        }
+    }
+    pub fn id(&self) -> String {
+        format!("{}/{}/{}/{} in {}", self.seed, self.state, self.rel, self.mode, self.parent)
+    }
+}
+
+pub fn new_builder(rel: &str, title: &str) -> Builder {
+    let mut b = Builder::from_context(sdk::ctx())
+        .with_definition(json!({"title": title, "claim_generator_info": [{"name": "kit", "version": "1"}]}))
+        .unwrap_or_else(|e| kit::ev::machinery(format!("C39 definition: {e:?}")));
+    if rel == "parentOf" {
+        b.set_intent(BuilderIntent::Edit);
+    } else {
+        b.set_intent(BuilderIntent::Create(DigitalSourceType::DigitalCapture));
+    }
+    b
+}
+
+/// Sign `parent` with `ing` (mime, bytes) added as an ingredient; returns (asset, store).
+pub fn make_parent(c: &Case, title: &str, ing_mime: &str, ing: &[u8], via_archive: bool) -> Result<(Vec<u8>, Vec<u8>), String> {
+    let p = assets::by_name(&c.parent);
+    let signer = sdk::fixture_signer("ed25519");
+    let ing_json = json!({"title": "the-ingredient", "relationship": c.rel}).to_string();
+    let mut b = new_builder(&c.rel, title);
+    if via_archive {
+        let mut b1 = new_builder(&c.rel, "archiver");
+        let id = {
+            let i = b1.add_ingredient_from_stream(ing_json.clone(), ing_mime, &mut Cursor::new(ing)).map_err(|e| format!("add(archiver): {e:?}"))?;
+            match i.label() { Some(l) if !l.is_empty() => l.to_string(), _ => i.instance_id().to_string() }
+        };
+        let mut buf = Cursor::new(Vec::new());
+        b1.write_ingredient_archive(&id, &mut buf).map_err(|e| format!("write_ingredient_archive: {e:?}"))?;
+        buf.set_position(0);
+        b.add_ingredient_from_stream(ing_json, "application/c2pa", &mut buf).map_err(|e| format!("add(archive): {e:?}"))?;
+    } else {
+        b.add_ingredient_from_stream(ing_json, ing_mime, &mut Cursor::new(ing)).map_err(|e| format!("add: {e:?}"))?;
+    }
+    sdk::sign(&mut b, signer.as_ref(), p.mime, &p.data).map_err(|e| format!("sign: {e:?}"))
+}
+
+/// Judge one (ingredient asset, its store if any) against the parent that was built from it.
+fn judge_parent(ing_mime: &str, ing: &[u8], ing_store: Option<&[u8]>, parent_mime: &str, parent: &[u8], parent_store: &[u8], fails: &mut Vec<(String, String)>) {
+    let alone = match read_alone(ing_mime, ing) {
+        Ok(x) => x,
+        Err(e) => { fails.push(("harness ingredient-unreadable-alone".into(), e)); return; }
+    };
+    let pboxes = match manifest_boxes(parent_store) {
+        Ok(b) => b,
+        Err(e) => { fails.push(("parent-store-unparseable".into(), e)); return; }
+    };
+    // (a) manifests carried unchanged
+    match ing_store {
+        Some(s) => {
+            let iboxes = manifest_boxes(s).unwrap_or_default();
+            for (label, bytes) in &iboxes {
+                match pboxes.iter().find(|(l, _)| l == label) {
+                    None => fails.push(("manifest-missing".into(), format!("manifest {label} of the ingredient is not in the new store (labels there: {:?})", pboxes.iter().map(|x| &x.0).collect::<Vec<_>>()))),
+                    Some((_, pb)) if pb != bytes => fails.push(("manifest-altered".into(), format!("manifest {label}: {} bytes in the ingredient, {} bytes in the new store, first difference at {:?}", bytes.len(), pb.len(), bytes.iter().zip(pb.iter()).position(|(x, y)| x != y)))),
+                    _ => {}
+                }
+            }
+            if pboxes.len() != iboxes.len() + 1 {
+                fails.push(("manifest-count".into(), format!("new store has {} manifests, ingredient store has {}", pboxes.len(), iboxes.len())));
+            }
+        }
+        None => {
+            if pboxes.len() != 1 {
+                fails.push(("unsigned-adds-manifest".into(), format!("unsigned ingredient, yet the new store has {} manifests", pboxes.len())));
+            }
+        }
+    }
+    // (b) recorded validation
+    let rd = match par::guard(|| sdk::read(sdk::ctx(), parent_mime, parent)) {
+        Ok(Ok(r)) => r,
+        Ok(Err(e)) => { fails.push((format!("parent-unreadable kind={}", sdk::err_kind(&e)), format!("{e:?}"))); return; }
+        Err(p) => { fails.push(("parent-read-panic".into(), p)); return; }
+    };
+    let j: Value = serde_json::from_str(&rd.json()).unwrap_or(Value::Null);
+    let active = j["active_manifest"].as_str().unwrap_or("");
+    let empty = vec![];
+    let ings = j["manifests"][active]["ingredients"].as_array().unwrap_or(&empty);
+    let Some(entry) = ings.iter().find(|i| i["title"].as_str() == Some("the-ingredient")) else {
+        fails.push(("ingredient-not-reported".into(), format!("reported ingredients: {:?}", ings.iter().map(|i| i["title"].clone()).collect::<Vec<_>>())));
+        return;
+    };
+    let rec_fail = failures_of(&entry["validation_results"]);
+    match alone {
+        None => {
+            if entry["active_manifest"].is_string() || entry["manifest_data"].is_object() {
+                fails.push(("unsigned-has-manifest".into(), format!("ingredient entry: active_manifest {:?} manifest_data {:?}", entry["active_manifest"], entry["manifest_data"])));
+            }
+            let vs = entry["validation_status"].as_array().map(|a| a.len()).unwrap_or(0);
+            if !rec_fail.is_empty() || vs > 0 {
+                fails.push(("unsigned-has-failure".into(), format!("recorded failures {rec_fail:?}, validation_status {:?}", entry["validation_status"])));
+            }
+        }
+        Some((state, alone_fail)) => {
+            if !entry["active_manifest"].is_string() {
+                fails.push(("signed-without-active-manifest".into(), "ingredient entry has no active_manifest".into()));
+            }
+            // the state the recorded results amount to, by the SDK's own derivation (signingCredential.untrusted sits in
+            // the failure bin without making a manifest Invalid)
+            let rec_state = match serde_json::from_value::<c2pa::ValidationResults>(entry["validation_results"].clone()) {
+                Ok(vr) => sdk::state_name(vr.validation_state()),
+                Err(_) => "unparseable",
+            };
+            if rec_state != state {
+                fails.push((format!("state-differs alone={state} recorded={rec_state}"), format!("alone failures {alone_fail:?}, recorded {rec_fail:?}")));
+            }
+            let ac: Vec<&String> = alone_fail.iter().map(|x| &x.1).collect();
+            let rc: Vec<&String> = rec_fail.iter().map(|x| &x.1).collect();
+            if ac != rc {
+                fails.push((format!("failure-codes-differ alone={ac:?} recorded={rc:?}"), format!("alone {alone_fail:?}, recorded {rec_fail:?}")));
+            } else if alone_fail != rec_fail {
+                fails.push(("failure-urls-differ".into(), format!("alone {alone_fail:?}, recorded {rec_fail:?}")));
+            }
+        }
+    }
+}
+
+pub fn run_case(c: &Case, seeds: &[Seed]) -> Result<(String, Vec<(String, String)>), String> {
+    par::guard(|| {
+        let s = seeds.iter().find(|s| s.name == c.seed).unwrap_or_else(|| kit::ev::machinery("C39: unknown seed"));
+        let (ing, store): (&Vec<u8>, Option<&[u8]>) = match c.state.as_str() {
+            "signed" => (&s.signed, Some(&s.store)),
+            "tampered" => (&s.tampered, Some(&s.store)),
+            _ => (&s.unsigned, None),
+        };
+        let pm = assets::by_name(&c.parent).mime;
+        let mut fails = vec![];
+        match c.mode.as_str() {
+            "direct" | "archive" => match make_parent(c, "outer", s.mime, ing, c.mode == "archive") {
+                Err(e) => fails.push((format!("build-error step={}", e.split(':').next().unwrap_or("")), e)),
+                Ok((out, pstore)) => judge_parent(s.mime, ing, store, pm, &out, &pstore, &mut fails),
+            },
+            _ => match make_parent(c, "middle", s.mime, ing, false) {
+                Err(e) => fails.push((format!("build-error step=middle-{}", e.split(':').next().unwrap_or("")), e)),
+                Ok((mid, mid_store)) => match make_parent(c, "outer", pm, &mid, false) {
+                    Err(e) => fails.push((format!("build-error step=outer-{}", e.split(':').next().unwrap_or("")), e)),
+                    Ok((out, pstore)) => judge_parent(pm, &mid, Some(&mid_store), pm, &out, &pstore, &mut fails),
+                },
+            },
+        }
+        let class = if fails.is_empty() { "faithful".to_string() } else { "unfaithful".to_string() };
+        (class, fails)
+    })
+}
+
+static STATS: std::sync::OnceLock<kit::defs::KeyStats> = std::sync::OnceLock::new();
+
+fn judge(run: &Run, c: &Case, seeds: &[Seed]) {
+    let r = run_case(c, seeds);
+    run.eval();
+    match r {
+        Err(p) => {
+            run.outcome("panic");
+            run.violation(format!("panic state={} rel={} mode={}", c.state, c.rel, c.mode), format!("{}: {p}", c.id()), c.to_json());
+        }
+        Ok((class, fails)) => {
+            run.outcome(format!("{class}:{}", c.state));
+            if !fails.iter().any(|f| f.0.starts_with("build-error") || f.0.starts_with("harness")) {
+                run.nontrivial(c.id());
+            }
+            for (k, w) in fails {
+                if k.starts_with("harness") {
+                    kit::ev::machinery(format!("C39 {}: {k}: {w}", c.id()));
+                }
+                STATS.get_or_init(Default::default).add(&format!("{k} state={} rel={} mode={}", c.state, c.rel, c.mode), &format!("{}: {w}", c.id()));
+                run.violation(format!("{k} state={} rel={} mode={} seed={}", c.state, c.rel, c.mode, c.seed), format!("{}: {w}", c.id()), c.to_json());
+            }
+        }
+    }
+}
+
+pub fn run(run: &Run, replay: Option<&Value>) {
+    run.rule("cases = ingredient (kit asset of every format, in state signed / tampered by one flipped media byte / unsigned) x relationship {parentOf, componentOf, inputTo} x \
+              {direct add_ingredient_from_stream, via write_ingredient_archive + add as application/c2pa, chain of 2 (ingredient of an ingredient)}; the new asset is signed and read. \
+              non-trivial = distinct cases whose parent could be built so that store bytes and recorded validation were compared with the ingredient read on its own.");
+    run.assume("the store bytes returned by Builder::sign for the ingredient are taken as the ingredient's manifest store; superboxes are compared with an independent JUMBF walker");
+    run.assume("recorded state = Invalid iff the ingredient's recorded validation_results contain a failure; failure codes compared as sorted lists (then with URLs)");
+    run.assume("intent Edit for parentOf, Create otherwise, so the ingredient under test is the only one");
+    let thorough = run.tier.is_thorough();
+    let seeds = seeds(thorough || replay.is_some());
+    if let Some(c) = replay {
+        let case = Case::from_json(c);
+        match run_case(&case, &seeds) {
+            Ok((class, f)) => println!("replay {}: {class} {f:?}", case.id()),
+            Err(p) => println!("replay {}: panic {p}", case.id()),
+        }
+        judge(run, &case, &seeds);
+        return;
+    }
+    let parents: Vec<&str> = if thorough { vec!["jpeg", "png", "mp4"] } else { vec!["jpeg"] };
+    let mut cases = vec![];
+    for s in &seeds { for st in STATES { for rel in RELS { for mode in MODES { for p in &parents {
+        cases.push(Case { seed: s.name.clone(), state: st.into(), rel: rel.into(), mode: mode.into(), parent: p.to_string() });
+    }}}}}
+    run.space(&format!("seed asset({}) x state(3) x relationship(3) x mode(3) x parent asset({})", seeds.len(), parents.len()), cases.len() as u64, true);
+    // determinism
+    {
+        let c = Case { seed: "png".into(), state: "tampered".into(), rel: "componentOf".into(), mode: "chain2".into(), parent: "jpeg".into() };
+        let x = run_case(&c, &seeds).map(|r| format!("{:?}", r));
+        let y = run_case(&c, &seeds).map(|r| format!("{:?}", r));
+        run.evals(2);
+        if x != y {
+            kit::ev::machinery(format!("C39: the same case judged differently twice: {x:?} / {y:?}"));
+        }
+    }
+    for s in seeds.iter().take(3) {
+        run.sample(json!({"seed": s.name, "signed_len": s.signed.len(), "tampered_byte": s.tamper_pos, "alone_signed": format!("{:?}", read_alone(s.mime, &s.signed)), "alone_tampered": format!("{:?}", read_alone(s.mime, &s.tampered))}));
+    }
+    par::for_each(&cases, |c| judge(run, c, &seeds));
+    STATS.get_or_init(Default::default).dump("C39");
+    run.sample(json!({"case": cases[cases.len() / 2].to_json()}));
 }
